@@ -208,6 +208,11 @@ func rsattr(in *In) r3.Sattr3 {
 	if in.SetSz {
 		s.Size = r3.Set_size3{Set_it: true, Size: r3.Size3(in.Size)}
 	}
+	if in.K == "setattr" && in.How&4 != 0 {
+		s.Mode = r3.Set_mode3{Set_it: true, Mode: 0o640}
+		s.Uid = r3.Set_uid3{Set_it: true, Uid: 1000}
+		s.Gid = r3.Set_gid3{Set_it: true, Gid: 1000}
+	}
 	if in.SetTm || in.SetMt {
 		s.Mtime = r3.Set_mtime{Set_it: r3.SET_TO_SERVER_TIME}
 	}
@@ -259,9 +264,9 @@ func (c *Conn) CallRPC(in *In) *Out {
 	case "setattr":
 		var res r3.SETATTR3res
 		args := &r3.SETATTR3args{Object: rfh(in.Obj), New_attributes: rsattr(in)}
-		if in.How == 1 {
+		if in.How&3 == 1 {
 			args.Guard = r3.Sattrguard3{Check: true, Obj_ctime: r3.Nfstime3{Seconds: 77, Nseconds: 5}}
-		} else if in.How == 2 {
+		} else if in.How&3 == 2 {
 			args.Guard = r3.Sattrguard3{Check: true}
 		}
 		if do(r3.NFSPROC3_SETATTR, args, &res) {
